@@ -7,7 +7,6 @@ use amq_protocol::protocol::basic::Get as AmqpGet;
 use amq_protocol::protocol::basic::{AMQPProperties, Consume};
 use amq_protocol::protocol::channel::AMQPMethod as AmqpChannel;
 use amq_protocol::protocol::channel::Close as ChannelClose;
-use amq_protocol::protocol::channel::CloseOk as ChannelCloseOk;
 use amq_protocol::protocol::channel::Open as ChannelOpen;
 use amq_protocol::protocol::channel::OpenOk as ChannelOpenOk;
 use amq_protocol::protocol::connection::Close as ConnectionClose;
@@ -80,14 +79,14 @@ pub(crate) struct ChannelHandle {
 
 impl ChannelHandle {
     pub(crate) fn close(&mut self) -> Result<()> {
-        let close = AmqpChannel::Close(ChannelClose {
+        let close = ChannelClose {
             reply_code: 0,
             reply_text: String::new(),
             class_id: 0,
             method_id: 0,
-        });
+        };
         debug!("closing channel {}", self.channel_id());
-        let close_ok = self.handle.call::<_, ChannelCloseOk>(close)?;
+        let close_ok = self.handle.call_channel_close(close)?;
         trace!("got close-ok: {:?}", close_ok);
         Ok(())
     }
